@@ -307,7 +307,8 @@ Record csnap := mkCSnap {
   ctab : list nat;                  (* per peer: number of registered connections *)
   ccalls : list (list nat);         (* per handler, per peer: number of calls *)
   cdeliv : list (list nat);         (* per peer, per incarnation 0..: messages received from S *)
-  cdisp : nat }.                    (* messages dispatched by S *)
+  cdisp : nat;                      (* messages dispatched by S *)
+  ccorrupt : nat }.                 (* messages that arrived with another identifier than any that was sent, or twice *)
 
 Definition count_calls (h p : nat) (l : list (nat * nat * nat)) : nat :=
   length (filter (fun x => (fst (fst x) =? h) && (snd (fst x) =? p)) l).
@@ -324,7 +325,7 @@ Definition csnapshot (x : xstate) (r : option bool) (sk : bool) : csnap :=
           (map (fun p => length (table s p)) (seq 0 (npeers x)))
           (map (fun h => map (fun p => count_calls h p (calls s)) (seq 0 (npeers x))) (seq 0 (nh s)))
           (map (fun p => map (fun i => count_deliv s p i) (seq 0 (S (incn s p)))) (seq 0 (npeers x)))
-          (length (dispatched s)).
+          (length (dispatched s)) 0.
 
 (* TCP: whether the kernel took a write to a dead peer is read off the observed result *)
 Definition with_buf (o : op) (b : bool) : op :=
@@ -381,7 +382,7 @@ Definition csnap_eqb (a b : csnap) : bool :=
   list_eqb Nat.eqb (ctab a) (ctab b) &&
   list_eqb (list_eqb Nat.eqb) (ccalls a) (ccalls b) &&
   list_eqb (list_eqb Nat.eqb) (cdeliv a) (cdeliv b) &&
-  (cdisp a =? cdisp b).
+  (cdisp a =? cdisp b) && (ccorrupt a =? ccorrupt b).
 
 (* ---- cases ----------------------------------------------------------------- *)
 
@@ -396,7 +397,7 @@ Inductive case :=
 | CEntry (ep : entry) (self : nat) (dests : list nat) (up : list nat)
          (obs_errs : nat) (obs_deliv : list nat)
 | CConfig (first_failed : bool) (obs_victim_msg obs_victim_cfg obs_control_cfg : bool)
-| CCluster (canaries canaries_done : nat) (sends_returned survivors_alive handlers_told after_restart_ok : bool)
+| CCluster (canaries canaries_done : nat) (sends_returned survivors_alive handlers_told table_clean after_restart_ok : bool)
 | CLocalFlood (k : nat) (closed_reached stop_returned sends_returned post_returned canary_ok : bool)
 | CTreeReq (request_unanswered : bool) (canaries canaries_done : nat) (sends_returned survivors_alive after_restart_ok : bool).
 
@@ -448,8 +449,8 @@ Definition agree (c : case) : bool :=
   | CConfig first_failed vmsg vcfg ccfg =>
       vmsg && ccfg &&
       Bool.eqb vcfg (carries_config code_fixed_N1 (if first_failed then [RErr] else []))
-  | CCluster canaries done returned alive told after =>
-      (done =? canaries) && returned && alive && told && after
+  | CCluster canaries done returned alive told tclean after =>
+      (done =? canaries) && returned && alive && told && tclean && after
   | CLocalFlood k closed_r stop_r sends_r post_r canary_r =>
       let '(c, s, p, m) := flood_outcome code_fixed_C09N3 200 k in
       Bool.eqb c closed_r && Bool.eqb c stop_r && Bool.eqb s sends_r && Bool.eqb p post_r && Bool.eqb m canary_r
@@ -575,7 +576,7 @@ Fixpoint check_real (is_tcp : bool) (nhand : nat) (t : truth) (prev : csnap) (hs
       let have p := negb (nth_nat (ctab prev) p =? 0) in
       let d0 := sum (map sum (cdeliv prev)) in
       let dn := sum (map sum (cdeliv b)) in
-      (clause 5 (negb (ctimeout b))) ++
+      (clause 5 (negb (ctimeout b))) ++ (clause 4 (ccorrupt b =? ccorrupt prev)) ++
       (if cskip b then [] else
        match o, cres b with
        | OSend p msgs _, Some r => send_clauses is_tcp t p (length msgs) (have p) (t_holding t) false d0 dn r
@@ -610,7 +611,7 @@ Fixpoint check_real (is_tcp : bool) (nhand : nat) (t : truth) (prev : csnap) (hs
 
 Definition snap0 (np : nat) : snap := mkSnap None false false (repeat [] np) [] [] [] [].
 Definition csnap0 (np nhand : nat) : csnap :=
-  mkCSnap None false false (repeat 0 np) (repeat (repeat 0 np) nhand) (repeat [0] np) 0.
+  mkCSnap None false false (repeat 0 np) (repeat (repeat 0 np) nhand) (repeat [0] np) 0 0.
 Definition truth0 : truth := mkTruth [] false false [].
 
 (* destinations the entry point is documented to try *)
@@ -644,8 +645,8 @@ Definition check (c : case) : list nat :=
       (* the property speaks about the message reaching the peer that is back, not about the
          configuration travelling with it: only the message is demanded here *)
       clause 4 vmsg
-  | CCluster canaries done returned alive told after =>
-      clause 5 ((done =? canaries) && returned && alive) ++ clause 3 told ++ clause 4 after
+  | CCluster canaries done returned alive told tclean after =>
+      clause 5 ((done =? canaries) && returned && alive) ++ clause 3 told ++ clause 2 tclean ++ clause 4 after
   | CLocalFlood k closed_r stop_r sends_r post_r canary_r =>
       (* the shutdown of the peer must get through, every Send must return, the survivor must go on *)
       clause 5 (closed_r && stop_r && sends_r && post_r && canary_r)
